@@ -70,6 +70,21 @@ def run_c11(tier, seed, replay):
             g, d = common.tlc_counts(out)
             sa += g
             da += d
+    # ---- unbounded: TLAPS proofs of the next-step dualities / monotonicity / self-loop facts (spec/Proofs.tla)
+    import re
+    import shutil
+    import subprocess
+    pd = os.path.join(wd, "tlaps")
+    os.makedirs(pd, exist_ok=True)
+    shutil.copy(os.path.join(common.SPEC, "Proofs.tla"), pd)
+    try:
+        pr = subprocess.run(["tlapm", "--threads", "4", "Proofs.tla"], cwd=pd, capture_output=True, text=True, timeout=900)
+        mm = re.search(r"All (\d+) obligations? proved", pr.stdout + pr.stderr)
+        if not mm:
+            raise ToolError("tlapm did not prove spec/Proofs.tla:\n" + (pr.stdout + pr.stderr)[-1500:])
+        proved = int(mm.group(1))
+    except subprocess.TimeoutExpired:
+        raise ToolError("tlapm timed out on spec/Proofs.tla")
     # ---- small networks: both sides judged point-wise against the reference semantics
     sizes = [3] * (6 if thorough else 3) + ([4] * 2 if thorough else [2])
     nets = common.probe_networks(semprops.fixed_nets()) + semprops.network_pool(rng, common.probe_networks, sizes)
@@ -175,6 +190,8 @@ def run_c11(tier, seed, replay):
     samples = [{"law": l["id"], "lhs": gen.render(l["lhs"]), "rhs": gen.render(l["rhs"])} for l in laws[:3]] + facts[:2]
     return runner.report("C11", tier, seed, t0, items, verdicts, ["denote", "equal", "law"], stats,
                          {"samples": samples, "laws": len(laws), "oracle_laws": len(oracles), "big_models": models_info,
+                          "obligations": proved, "discharged": proved, "checker_cmd": "tlapm --threads 4 spec/Proofs.tla",
+                          "proofs": "TLAPS: AX/EX duality, monotonicity, self-loop identity, EU unfolding step, AX => EX on total structures, for arbitrary S and K",
                           "mode_A": {"structures_up_to_states": 3 if thorough else 2, "states": da,
                                      "modules": "MC_Laws (every law on all small Kripke structures), MC_Saturation (saturation loop as written = least fixed point = constrained backward reachability, all argument pairs on small networks)"},
                           "rule": "mode A: every law of spec/Laws.tla on all total Kripke structures up to the bound x all argument sets (TLC); small networks: both sides of every law evaluated through the API with random argument sets and judged against Hctl.Sat and equal; bundled benchmark models: the TLC-exported catalogue instantiated with pseudo-random argument sets, BDD equality logged and checked by spec/Trace_Laws.tla; EF/AG/EU also against reach_backward / trap_forward / Reachability::reach_bwd"},
